@@ -18,6 +18,16 @@ def main():
     ap.add_argument("--tier", default=os.environ.get("VERIF_TIER", "quick"))
     ap.add_argument("--replay")
     a = ap.parse_args()
+    # the repository's third-party dependencies live in /venv: started under another interpreter, hand over to it
+    try:
+        import networkx  # noqa: F401
+    except ImportError:
+        venv = "/venv/bin/python"
+        if os.path.exists(venv) and os.path.realpath(sys.executable) != os.path.realpath(venv) and not os.environ.get("VERIF_REEXEC"):
+            os.environ["VERIF_REEXEC"] = "1"
+            os.execv(venv, [venv] + sys.argv)
+        print("MACHINERY-ERROR: networkx is not importable by this interpreter", file=sys.stderr)
+        sys.exit(2)
     # string hashing (hence set / dict-of-str iteration order) is fixed per VERIF_SEED: reproducible, and different seeds
     # see different orders
     hs = str(int(os.environ.get("VERIF_SEED", "0") or 0) % 4294967295)
